@@ -62,6 +62,22 @@ Definition c11_retry_only_if_unprocessed : Prop :=
     let id := cst_sid (cli_run cfg first evs) tag in
     In id (header_ids tr) -> disclaimed (cli_log cfg first evs) id.
 
+(* (4') error by error: ErrConnectionClosed, ErrNotAvailableStreams and ErrNoMoreStreamIDs are only ever
+   delivered for a request whose HEADERS are not in the trace; ErrGoAway for one whose HEADERS are not in
+   the trace or whose stream is above the last-stream-id of a GOAWAY the read loop has taken in *)
+Definition goaway_above (log : list cli_entry) (id : N) : Prop :=
+  exists e fr, In e log /\ le_ev e = CEvRL (RFrame fr) /\ cl_rl_live hpack_state (le_before e) = true /               sf_kind fr = KGoAway /\ sf_sid fr = 0 /\ sf_dep fr < id.
+Definition c11_retryable_errors_unsent : Prop :=
+  forall cfg first evs tag retry err resp,
+    let tr := cli_tr cfg first evs in
+    let id := cst_sid (cli_run cfg first evs) tag in
+    In (tag, retry, err, resp) (results_of tr) ->
+    match err with
+    | CEConnClosed | CENoStreams | CENoIDs => ~ In id (header_ids tr)
+    | CEGoAway => ~ In id (header_ids tr) \/ goaway_above (cli_log cfg first evs) id
+    | _ => True
+    end.
+
 (* ---------- examples ---------- *)
 
 (* GOAWAY(last = 1) with streams 1 and 3 in flight: 3 ends with the retryable ErrGoAway, 1 is
@@ -76,13 +92,22 @@ Example c11_ex_goaway :
   = ([1; 3], [(1, true, CEGoAway); (2, true, CENoStreams); (0, false, CENil)]).
 Proof. vm_compute. reflexivity. Qed.
 
-(* statement (4) is false of the model as the code stands: Close racing Write. Close has closed
-   done but not yet the socket; Write puts the Ctx on c.in and, seeing done, resolves it with
-   ErrConnectionClosed; the write loop's select takes the Ctx before it takes done and writes
-   its HEADERS. The caller is told "retryable", the server has the request. *)
-Example c11_retry_after_headers_written :
-  let evs := [CEvClose; CEvSubmit 0 ex_get true; CEvWLIn; CEvCloseNet; CEvReceive 0] in
+(* Close racing Write. Close has closed done but not yet the socket; Write has put the Ctx on c.in.
+   If the write loop's select takes the Ctx before it takes done, the HEADERS go out; Write's
+   second select then finds the Ctx has a stream and leaves the answer to the teardown: not retryable.
+   (Write used to answer ErrConnectionClosed, retryable, whatever the write loop had done.) *)
+Example c11_ex_close_races_write_sent :
+  let evs := [CEvClose; CEvSubmit 0 ex_get true; CEvWLIn; CEvSubmitCheck 0; CEvCloseNet; CEvWLDone; CEvReceive 0] in
   let tr := cli_tr ex_cfg [] evs in
-  (header_ids tr, map (fun r => (fst (fst r), snd (fst r))) (results_of tr), cst_sid (cli_run ex_cfg [] evs) 0)
-  = ([1], [(0, true, CEConnClosed)], 1).
+  (header_ids tr, map (fun r => (fst (fst r), snd (fst r))) (results_of tr))
+  = ([1], [(0, false, CEConn)]).
+Proof. vm_compute. reflexivity. Qed.
+
+(* the other order: Write's second select comes first, takes the Ctx back and answers
+   ErrConnectionClosed; the write loop then finds the Ctx done and writes nothing *)
+Example c11_ex_close_races_write_unsent :
+  let evs := [CEvClose; CEvSubmit 0 ex_get true; CEvSubmitCheck 0; CEvWLIn; CEvCloseNet; CEvWLDone; CEvReceive 0] in
+  let tr := cli_tr ex_cfg [] evs in
+  (header_ids tr, map (fun r => (fst (fst r), snd (fst r))) (results_of tr))
+  = ([], [(0, true, CEConnClosed)]).
 Proof. vm_compute. reflexivity. Qed.
